@@ -46,6 +46,10 @@ EXTRACT ("C10Quat", q_axis, "C10.Quat.axis", { IN (Quat, q); c.out (q.axis ()); 
 EXTRACT ("C10Quat", q_setAxisAngle, "C10.Quat.setAxisAngle", { IN (Quat, q); IN (Vec3, axis); T radians = c.inS ("radians"); q.setAxisAngle (axis, radians); c.out (q); })
 // ---- setRotation (three paths: <= 90 degrees, split at the halfway vector, antipodal fallback)
 EXTRACT ("C10Quat", q_setRotation, "C10.Quat.setRotation", { IN (Quat, q); IN (Vec3, vfrom); IN (Vec3, vto); q.setRotation (vfrom, vto); c.out (q); })
+// ---- building blocks of setRotation, extracted separately so that sym_c10c.cpp can call them opaquely (module C10Rot):
+//      Vec3::normalized and the private member Quat::setRotationInternal (reached through c10priv::Tag<T>::ptr, see sym_c10.cpp)
+EXTRACT ("C10Quat", v3_normalized, "C10.V3.normalized", { IN (Vec3, a); c.out (a.normalized ()); })
+EXTRACT ("C10Quat", q_setRotationInternal, "C10.Quat.setRotationInternal", { IN (Vec3, f0); IN (Vec3, t0); Quat<T> me, q; (me.*c10priv::Tag<T>::ptr) (f0, t0, q); c.out (q); })
 // ---- interpolation
 EXTRACT ("C10Quat", f_sinx_over_x, "C10.sinx_over_x", { T x = c.inS ("x"); c.outS (sinx_over_x (x)); })
 EXTRACT ("C10Quat", q_angle4D, "C10.Quat.angle4D", { IN (Quat, q1); IN (Quat, q2); c.outS (angle4D (q1, q2)); })
